@@ -93,6 +93,21 @@ def generate(ctx):
             nh += 2; inst += 1
         yield lines, dict(family="cab.history-two-cabinets", hist=[list(x) for x in hist], distinct=[list(x) for x in sorted(set(hist))],
                           damaged=True, two=True, nontrivial=True, **dm)
+    # directed: the ResetTable cannot be read (its entry claims the compressed section), SpanInfo takes its place: the
+    # first extraction of a compressed member and the same call repeated must agree (with each other and a fresh instance)
+    for _ in range(2 if ctx.tier == "quick" else 20):
+        r = S.chm_rtable_in_section1(rng)
+        if r is None: continue
+        case, js = r
+        nm = case["meta"]["order"][0]
+        hist = [(0, js[0]), (0, js[0]), (0, js[-1]), (0, js[0])]
+        lines = [f"file A0_{nm} {case['files'][nm].hex()}", "new chm", f"open i0 A0_{nm}"] + [f"extract i0 h0 {j} out" for (_, j) in hist]
+        inst = 1; nh = 1
+        for (ai, j) in sorted(set(hist)):
+            lines += ["new chm", f"open i{inst} A0_{nm}", f"extract i{inst} h{nh} {j} out", f"destroy i{inst}"]
+            nh += 1; inst += 1
+        yield lines, dict(family="chm.rtable-in-section1", hist=[list(x) for x in hist], distinct=[list(x) for x in sorted(set(hist))],
+                          damaged=False, two=False, nontrivial=True)
     n = 40 if ctx.tier == "quick" else 1500
     k = 0
     while k < n:
@@ -131,15 +146,22 @@ def generate(ctx):
         lines += [f"new {kind}"] + ops
         for (ai, j) in hist:
             lines.append(f"extract i0 h{heads[ai]} {j} out")
-        # baselines: every distinct member on its own fresh decompressor
+        # baselines: every distinct member on its own fresh decompressor (for a damaged archive: every member of it,
+        # so that the damaged folders - the ones with a member that fails on a fresh decompressor - are known)
         inst = 1; base = {}
-        for (ai, j) in sorted(set(hist)):
+        baseline = sorted(set(hist) | ({(0, j) for j in range(len(a["members"]))} if damaged else set()))
+        for (ai, j) in baseline:
             ops2, heads2, nh2 = open_ops(inst, nh)
             lines += [f"new {kind}"] + ops2 + [f"extract i{inst} h{heads2[ai]} {j} out"]
             # close what was opened so that handle numbering stays simple
             lines += [f"destroy i{inst}"]
             nh = nh2; inst += 1
-        yield lines, dict(family=kind + ".history", hist=[list(x) for x in hist], distinct=[list(x) for x in sorted(set(hist))],
+        def folder_of(arc, j):
+            m = arc["members"][j]
+            if kind == "cab": return m.get("folder", 0)
+            return 1 if m.get("section") == 1 else -1 - j           # CHM: the LZX stream is one unit, stored members stand alone
+        yield lines, dict(family=kind + ".history", hist=[list(x) for x in hist], distinct=[list(x) for x in baseline],
+                          folders={f"{ai}:{j}": folder_of(arc, j) for ai, arc in enumerate(archives) for j in range(len(arc["members"]))},
                           damaged=damaged, two=b is not None, nontrivial=len(set(hist)) >= 2)
 
 def judge(ctx, meta, impl, model):
@@ -152,10 +174,15 @@ def judge(ctx, meta, impl, model):
     if len(ex) != nh + len(dist):
         return [Finding("mismatch", f"expected {nh + len(dist)} extract results, got {len(ex)}")]
     fresh = {m: (e.get("st"), e.get("out")) for m, e in zip(dist, ex[nh:])}
+    fol = meta.get("folders") or {}
+    # the damaged folders: those with a member that fails on a fresh decompressor.  The property promises undisturbed
+    # results for members of INTACT folders; a member of a damaged folder that a fresh decompressor can still deliver
+    # (its data lies before the damage) may see the folder's decoder in its failed state.
+    bad_folders = {(m[0], fol.get(f"{m[0]}:{m[1]}")) for m in dist if fresh[m][0] != "0"} if meta["damaged"] else set()
     for k, (m, e) in enumerate(zip(meta["hist"], ex[:nh])):
         got = (e.get("st"), e.get("out"))
-        if meta["damaged"] and fresh[tuple(m)][0] != "0":
-            continue        # a member of the damaged folder itself: the property speaks of members of intact folders
+        if meta["damaged"] and (fresh[tuple(m)][0] != "0" or (m[0], fol.get(f"{m[0]}:{m[1]}")) in bad_folders):
+            continue        # a member of a damaged folder: the property speaks of members of intact folders
         if got != fresh[tuple(m)]:
             fs.append(Finding("violation", f"call {k} (archive {m[0]} member {m[1]}) after history {meta['hist'][:k]}: {got}, on a fresh decompressor: {fresh[tuple(m)]}"
                                            + (" [archive damaged]" if meta["damaged"] else "")))
